@@ -211,6 +211,20 @@ def hmapS(m):
         'n=%d' % m.number_duplication,
         'c=%d' % (1 if m.consistent else 0)])
 
+class _PubView(object):
+    """the vertical map as a user sees it: through the public accessors of MapVertical"""
+    def __init__(self, v):
+        self.ancestor = v.ancestor; self.descendant = v.descendant
+        self.GAIN = v.get_gained(); self.LOSS = v.get_lost()
+        self.RETAINED = v.get_retained(); self.DUPLICATE = v.get_duplicated()
+        self.number_duplication = v.get_number_duplications()
+        self.consistent = v.map.consistent
+
+def vmapS(v):
+    """hmapS of a MapVertical read through get_lost / get_gained / get_retained / get_duplicated /
+    get_number_duplications and the .ancestor / .descendant attributes of the result object"""
+    return hmapS(_PubView(v))
+
 def upmapS(m):
     a = gtax(m.ancestor); d = gtax(m.descendant)
     items = []
